@@ -120,8 +120,10 @@ func checkC14(c *Ctx) {
 			isH[h] = true
 		}
 		var extra []*ssa.Function
-		for _, h := range handlers {
-			for fn := range p.SyncReach(h) {
+		// every top-level function of the two packages qualifies, however the handlers reach it
+		// (a static call, or a function value such as mailboxActionV1(f).handle)
+		for _, h := range [][]*ssa.Function{append(pkgFuncs(p, "pkg/rest"), pkgFuncs(p, "pkg/webui")...)} {
+			for _, fn := range h {
 				if isH[fn] || fn.Parent() != nil || !(strings.HasSuffix(eng.FuncPkgPath(fn), "/pkg/rest") || strings.HasSuffix(eng.FuncPkgPath(fn), "/pkg/webui")) {
 					continue
 				}
@@ -319,9 +321,60 @@ func checkC14(c *Ctx) {
 	c.c14ReadThrough()
 	c.c14Name(handlers, mgr, mbfa)
 	c.c14Routes()
-	c.c14Fields(handlers)
+	// the handlers and what they run synchronously, also through a function value (a handler
+	// may be a thin wrapper around an action function: mailboxActionV1(f).handle); code that only
+	// runs on other goroutines (the WebSocket writers) is not on the HTTP response path
+	allTop := append([]*ssa.Function(nil), handlers...)
+	{
+		have := map[*ssa.Function]bool{}
+		for _, h := range handlers {
+			have[h] = true
+		}
+		inPkgs := func(fn *ssa.Function) bool {
+			pk := eng.FuncPkgPath(fn)
+			return strings.HasSuffix(pk, "/pkg/rest") || strings.HasSuffix(pk, "/pkg/webui")
+		}
+		var more []*ssa.Function
+		work := append([]*ssa.Function(nil), handlers...)
+		seenW := map[*ssa.Function]bool{}
+		for len(work) > 0 {
+			w := work[len(work)-1]
+			work = work[:len(work)-1]
+			if seenW[w] {
+				continue
+			}
+			seenW[w] = true
+			for g := range p.SyncReach(w) {
+				if !inPkgs(g) {
+					continue
+				}
+				if g.Parent() == nil && !have[g] {
+					have[g] = true
+					more = append(more, g)
+				}
+				if n := p.CG().Nodes[g]; n != nil {
+					for _, e := range n.Out {
+						call, isCall := e.Site.(*ssa.Call)
+						if !isCall || call.Call.IsInvoke() || eng.StaticCallee(call.Common()) != nil || e.Callee.Func == nil {
+							continue
+						}
+						if t := eng.Outer(e.Callee.Func); inPkgs(t) && !seenW[t] {
+							if !have[t] {
+								have[t] = true
+								more = append(more, t)
+							}
+							work = append(work, t)
+						}
+					}
+				}
+			}
+		}
+		sortFuncs(more)
+		allTop = append(allTop, more...)
+	}
+	c.c14Fields(allTop)
 	c.c14ServeHTTP()
-	c.c14ParsedIndex(handlers)
+	c.c14ParsedIndex(allTop)
 }
 
 // c14ParsedIndex: a number parsed from the request and used as an index must be checked
@@ -489,10 +542,16 @@ func (c *Ctx) c14Name(handlers []*ssa.Function, mgr *types.Named, mbfa *types.Fu
 	p, r := c.P, c.R
 	mi := mgr.Underlying().(*types.Interface)
 	n := 0
-	for _, H := range handlers {
-		pk := eng.FuncPkgPath(H)
-		if pk != eng.Mod+"/pkg/rest" && pk != eng.Mod+"/pkg/webui" {
-			continue
+	// every function of the two packages, not only the registered handlers' own bodies: a
+	// handler may be a thin wrapper around an action function it calls through a function value
+	_ = handlers
+	var all []*ssa.Function
+	all = append(all, pkgFuncs(p, "pkg/rest")...)
+	all = append(all, pkgFuncs(p, "pkg/webui")...)
+	sortFuncs(all)
+	for _, H := range all {
+		if H.Parent() != nil {
+			continue // visited with its enclosing function
 		}
 		eng.EachCallDeep(H, func(fn *ssa.Function, ci ssa.CallInstruction) {
 			cc := ci.Common()
@@ -509,7 +568,7 @@ func (c *Ctx) c14Name(handlers []*ssa.Function, mgr *types.Named, mbfa *types.Fu
 			}
 			n++
 			arg := cc.Args[0]
-			if flowsFromCall(arg, mbfa, 0) {
+			if c.flowsFromCallP(arg, mbfa) {
 				r.Ok("C14/NAME", shortFn(H)+":"+cc.Method.Name(), p.InstrPos(ci), "mailbox argument is the result of MailboxForAddress")
 			} else {
 				r.Bad("C14/NAME", shortFn(H)+":"+cc.Method.Name(), p.InstrPos(ci), "mailbox argument of Manager.%s does not come from Manager.MailboxForAddress: this handler addresses a different mailbox than the one delivery used", cc.Method.Name())
@@ -517,6 +576,43 @@ func (c *Ctx) c14Name(handlers []*ssa.Function, mgr *types.Named, mbfa *types.Fu
 		})
 	}
 	r.Floor("C14/NAME", "Manager calls with a mailbox argument in handlers", n, 1)
+}
+
+// flowsFromCallP: flowsFromCall, where a parameter stands for what every caller the call
+// graph knows passes (static callers, and dynamic callers through a function value).
+func (c *Ctx) flowsFromCallP(v ssa.Value, obj *types.Func) bool {
+	var rec func(v ssa.Value, depth int) bool
+	rec = func(v ssa.Value, depth int) bool {
+		if depth > 4 {
+			return false
+		}
+		if flowsFromCall(v, obj, 0) {
+			return true
+		}
+		prm, ok := eng.StripConv(v).(*ssa.Parameter)
+		if !ok {
+			if ph, isPhi := v.(*ssa.Phi); isPhi {
+				for _, e := range ph.Edges {
+					if !rec(e, depth+1) {
+						return false
+					}
+				}
+				return len(ph.Edges) > 0
+			}
+			return false
+		}
+		vals, known := c.P.ActualsOf(prm)
+		if !known || len(vals) == 0 {
+			return false
+		}
+		for _, a := range vals {
+			if !rec(a, depth+1) {
+				return false
+			}
+		}
+		return true
+	}
+	return rec(v, 0)
 }
 
 // flowsFromCall: v is result #0 of a call to obj (through phis whose every edge is).
